@@ -777,3 +777,17 @@ silent("C14", "solid harmonics of all centres in one batch, reshaped centre-majo
 silent("C14", "Cartesian contraction as a weighted sum",
        ("sub", "basegrid.py", "                integral = np.einsum(\"ln,n,n->l\", cent_pts_with_order, func_vals, self.weights)\n            elif type_mom in",
         "                integral = np.sum(cent_pts_with_order * (func_vals * self.weights), axis=1)\n            elif type_mom in"))
+
+# ------------------------------------------------------------------------------------------ C13 log-interpolant
+fire("C13", "log branch: closed forms with the cross term 2 g' g'' instead of 3", "log-interpolant-derivative/cubic._HyperRectangleGrid.interpolate/order[3]",
+     ("sub", "cubic.py", "                # Sympy symbols and dictionary of symbols pointing to the derivative values\n",
+      "                if deriv_var == 3:\n                    g1, g2, g3 = (np.asarray(d, dtype=float) for d in derivs)\n                    return interpolated * (g1**3 + 2.0 * g1 * g2 + g3)\n                # Sympy symbols and dictionary of symbols pointing to the derivative values\n"))
+fire("C13", "log branch: derivatives of the values instead of their logarithm", "log-interpolant-derivative/cubic._HyperRectangleGrid.interpolate/log-values",
+     ("sub", "cubic.py", "        if use_log:\n            values = np.log(values)\n", "        log_values = np.log(values) if use_log else values\n"),
+     ("sub", "cubic.py", "                self.interpolate(points, values, use_log=False, nu_x=0, nu_y=0, nu_z=0)\n            )\n            # Only consider",
+      "                self.interpolate(points, log_values, use_log=False, nu_x=0, nu_y=0, nu_z=0)\n            )\n            # Only consider"))
+fire("C13", "log branch: Bell sum starts at the second term", "log-interpolant-derivative/cubic._HyperRectangleGrid.interpolate/order",
+     ("sub", "cubic.py", "                                    for i in range(1, deriv_var + 1)\n                                ]", "                                    for i in range(2, deriv_var + 1)\n                                ]"))
+silent("C13", "log branch: correct closed forms for the orders 1 to 3",
+       ("sub", "cubic.py", "                # Sympy symbols and dictionary of symbols pointing to the derivative values\n",
+        "                if deriv_var <= 3:\n                    g = [np.asarray(d, dtype=float) for d in derivs]\n                    poly = g[0] if deriv_var == 1 else g[0] ** 2 + g[1] if deriv_var == 2 else g[0] ** 3 + 3.0 * g[0] * g[1] + g[2]\n                    return interpolated * poly\n                # Sympy symbols and dictionary of symbols pointing to the derivative values\n"))
